@@ -19,8 +19,9 @@ META = dict(
           "transliterated each run and executed on symbolic reals. (N) node lemmas for dof = 1,2,3 (6 in the thorough tier), fully symbolic hinge matrix H, ANY symmetric articulated inertia, any "
           "parent shift, one arbitrary child: P = Mk + sum Phi P+ ~Phi; D = ~H P H symmetric; DI*D = D*DI = 1 (real Mat<dof,dof>::invert, det D != 0), DI symmetric; G = P H DI; P+ = (1 - G ~H) P, "
           "~H P+ = 0, P+ symmetric; multiplyByMInv passes: z = sum shift(z+_c), A_GB = shift(A_GP) + H udot, P A_GB + z = P+ shift(A_GP) + z+ and the joint equation ~H(P A_GB + z) = f; "
-          "multiplyByM passes: A_GB = shift(A_GP) + H udot, F = Mk A_GB + sum shift(F_c) (Newton-Euler written out), tau = ~H F; body kinetic energy = 1/2 m |v_cm|^2 + 1/2 w.I_cm w. "
-          "(T, BOUNDED: ground + 1 body and ground + 2-body chain, 1 symbolic mobility per body, passes run in the transliterated driver order): multiplyByM(multiplyByMInv(v)) = v, "
+          "multiplyByM passes: A_GB = shift(A_GP) + H udot, F = Mk A_GB + sum shift(F_c) (Newton-Euler written out), tau = ~H F; body kinetic energy = 1/2 m |v_cm|^2 + 1/2 w.I_cm w; H = H_PB_G from H_FM for the 8 frame specialisations "
+          "<noR_FM,noX_MB,noR_PF> of calcParentToChildVelocityJacobianInGround[Dot] (each specialised branch equals the general relation under what its flag promises). "
+          "(T, BOUNDED: ground + 1 body, ground + 2-body chain, ground + 2 bodies both on Ground, 1 symbolic mobility per body, passes run in the transliterated driver order): multiplyByM(multiplyByMInv(v)) = v, "
           "multiplyByMInv(multiplyByM(x)) = x, ~x M y = ~y M x, calcKineticEnergy = 1/2 ~u M u with V_GB from the real velocity recursion, M entries = composite-rigid-body closed form "
           "(~H Mk H for one body; ~H_k R_k H_k and ~H_1 shift(R_2 H_2) with R from the real calcCompositeBodyInertias), ~u M u = sum m_k(|v_cm|^2 + w.Gc w) >= 0 for valid bodies. "
           "Over the reals (z3 QF_NRA). NOT decided: the induction over arbitrary trees, strict positive definiteness, calcM/calcMInv column assembly, prescribed motion, the mobilizer-specific H, "
@@ -50,16 +51,17 @@ def main(ctx):
         unit(ctx, "abi+mi.dof%d" % dof, node)
         unit(ctx, "mm.dof%d" % dof, lambda dof=dof: DL.id_lemmas(B, DL.NodeScenario(B, dof, 1), "mm.dof%d" % dof, zero_bias=True))
         unit(ctx, "ke.dof%d" % dof, lambda dof=dof: DL.vel_lemmas(B, dof, "ke.dof%d" % dof, which="V1 V5"))
+        unit(ctx, "hpbg.dof%d" % dof, lambda dof=dof: DL.hpbg_lemmas(B, dof, "hpbg.dof%d" % dof))
     def shapes():
-        for nchild in (0, 2):
-            if nchild:
-                sc = DL.NodeScenario(B, 1, nchild)
-                abi = DL.abi_lemmas(B, sc, "abi.dof1.children%d" % nchild)
-                DL.fd_lemmas(B, sc, abi, "mi.dof1.children%d" % nchild, zero_bias=True)
-            DL.id_lemmas(B, DL.NodeScenario(B, 1, nchild), "mm.dof1.children%d" % nchild, zero_bias=True)
+        for nchild, dof in [(0, 1), (0, 3), (2, 1)] + ([(2, 3)] if thorough else []):
+            sc = DL.NodeScenario(B, dof, nchild)
+            abi = DL.abi_lemmas(B, sc, "abi.dof%d.children%d" % (dof, nchild))
+            DL.fd_lemmas(B, sc, abi, "mi.dof%d.children%d" % (dof, nchild), zero_bias=True)
+            DL.id_lemmas(B, DL.NodeScenario(B, dof, nchild), "mm.dof%d.children%d" % (dof, nchild), zero_bias=True)
     unit(ctx, "shapes", shapes)
     for nb in (1, 2):
         unit(ctx, "tree%d.mass" % nb, lambda nb=nb: (DL.tree_roundtrips(B, nb, "tree%d.mass" % nb, "mass"), DL.tree_mass(B, nb, "tree%d.mass" % nb), DL.tree_psd(B, nb, "tree%d.mass" % nb)))
+    unit(ctx, "fork2.mass", lambda: (DL.tree_roundtrips(B, 2, "fork2.mass", "mass", shape="fork"), DL.tree_mass(B, 2, "fork2.mass", shape="fork"), DL.tree_psd(B, 2, "fork2.mass", shape="fork")))
     for k, v in B.drivers.items():
         if v < 1:
             ctx.undecide("driver %s: no level loop transliterated" % k)
@@ -68,12 +70,13 @@ def main(ctx):
                "calcCompositeBodyInertias: total mass != 0 (SpatialInertia += divides by it)")
     ctx.not_decided += [
         "induction over arbitrary trees: the node lemmas are the induction step (arbitrary parent motion, arbitrary child P+/z+/F), the composition is enacted only for ground + 1 body and ground + 2-body chain "
-        "(1 mobility per body); branching trees and deeper chains are not composed",
+        "and ground + 2 bodies both on Ground (1 mobility per body); deeper chains and branching below a moving body are not composed",
         "strict positive definiteness of M (equivalent to D_k > 0 for every joint in the ABA factorisation; needs physically valid mass properties and H of full column rank); "
         "only M*MInv = MInv*M = 1 under det D_k != 0, symmetry and semidefiniteness are machine checked, the native replay checks LDL' pivots > 0",
         "calcM / calcMInv column-by-column assembly (Matrix column views, contiguity branches): only their columns multiplyByM(e_k) / multiplyByMInv(e_k) are under obligation; compared natively in the replay",
         "prescribed motion (Mrr^-1 sub-block semantics of multiplyByMInv), constraints",
-        "the mobilizer-specific parts: H_FM, H = H_PB_G (calcParentToChildVelocityJacobianInGround) and its frame specialisations noR_FM / noX_MB / noR_PF (C03/C05 cover H_FM per mobilizer)",
+        "the mobilizer-specific H_FM (C03/C05 cover it per mobilizer); H_PB_G is tied to H_FM here for the 8 frame specialisations, but whether each built-in mobilizer class is instantiated "
+        "with flags that match its frames (RigidBodyNodeSpec_Derived.cpp factory) is not checked",
         "position kinematics: Phi = PhiMatrix(p_PB_G), Mk_G (calcJointIndependentKinematicsPos; C29 covers the mass-property operators)",
         "LoneParticle and Weld nodes, Custom mobilizers; the State/cache/stage plumbing of the SimbodyMatterSubsystemRep drivers",
         "dof = 4, 5 and, in the quick tier, dof = 6 (thorough tier only; Mat<N,N>::invert() for N > 3 (Lapack) modelled by its defining equations)",
